@@ -1882,6 +1882,10 @@ class _AnsiSettingPoint:
                 # At this point, setting will be valid list or tuple - recursive call to unpack
                 settings_out += __class__._scrub_ansi_settings(setting, make_unique, parsed_ids)
 
+        if len(parsed_ids) > 1:
+            # Nested call - integers are grouped by the outermost call so that runs may span nesting levels
+            return settings_out
+
         # settings_out is now a list of AnsiSettings and integers - parse for integers and combine int AnsiSetting
         current_ints = []
         idx = 0
